@@ -9,7 +9,7 @@ use circ::{AtomicRc, AtomicWeak, Rc, RcObject};
 pub const CANARY: u64 = 0xC1AC_0DE5_AFE0_0D1E;
 pub const CANARY_DEAD: u64 = 0xDEAD_DEAD_DEAD_DEAD;
 
-/// pop_edges policy for this run: 0 = all edges, 1 = first edge only, 2 = none
+/// pop_edges policy for this run: 0 = all edges, 1 = first edge only, 2 = none, 3 = all edges, each passed through with_tag(0)
 pub static POP_POLICY: AtomicU8 = AtomicU8::new(0);
 /// destructor re-enters the API (pins, flushes) while running inside collection
 pub static DTOR_API: AtomicU8 = AtomicU8::new(0);
@@ -82,6 +82,11 @@ unsafe impl<M: AlignMarker> RcObject for Node<M> {
                 out.push(self.next[1].take());
             }
             1 => out.push(self.next[0].take()),
+            3 => {
+                // as a Harris list does: the deletion mark is stripped from the edges handed back
+                out.push(self.next[0].take().with_tag(0));
+                out.push(self.next[1].take().with_tag(0));
+            }
             _ => {}
         }
     }
